@@ -280,6 +280,70 @@ def tolerance_cases():
     return lambda pkg: run_obligation(pkg, fn)
 
 
+def locality_cases(kind, nv, ne):
+    """Q3: "any numeric component far above the tolerance" is measured against the object that component belongs to.  With a
+    symbolic `tol`, every inequality that Graph.equals decides against the tolerance involves the numbers of ONE constituent
+    (one vertex pair or one edge pair): a threshold test that mixes the data of several vertices / edges scales one vertex's
+    difference by the size of the rest of the graph, so the same single-component difference is reported or not depending on
+    unrelated vertices.  (Decisions that do not involve the tolerance -- e.g. the comparisons inside a max() over per-object
+    errors -- are computations and are not restricted.)"""
+    from ..interp import base_variables
+
+    def fn(it):
+        T = Poly.var("tol")
+        ids = [Poly.var("ida"), Poly.var("idb"), Poly.var("idc")]
+        n = 0
+        if True:
+            owner = {}
+
+            def graph(i, tag, kind=kind, owner=owner):
+                vs = []
+                for k in range(nv):
+                    cls = "PoseR2" if (kind == "lm" and k == 1) else "PoseSE2"
+                    vs.append(mk_vertex(i, ids[k], sym_pose(cls, "p%s%d" % (tag, k))))
+                    owner["p%s%d" % (tag, k)] = "vertex %d" % k
+                es = []
+                for k, pair in enumerate(([ids[0], ids[1]], [ids[2], ids[1]] if kind == "lm" else [ids[1], ids[2]])[:ne]):
+                    t2 = "%s%d" % (tag, k)
+                    es.append(mk_landmark(i, "PoseSE2", pair, t2) if kind == "lm" else mk_odometry(i, "PoseSE2", pair, t2))
+                    for pre in ("W", "z", "off"):
+                        owner[pre + t2] = "edge %d" % k
+                return i.construct("Graph", [es, vs])
+
+            def run(i):
+                return i.call_method(graph(i, "a"), "equals", [graph(i, "b"), T])
+            try:
+                paths = explore(it.pkg, run, hook=distinct_names_hook, max_paths=4096)
+            except AnalysisError as e:
+                paths = getattr(e, "partial", None)
+                if paths is None:
+                    raise
+            n += len(paths)
+            n_tol = 0
+            for p in paths:
+                if p.raised is not None:
+                    raise ObFail("Graph[%s].equals(other, tol) raises %s" % (kind, p.raised))
+                for d in p.decided:
+                    bv = base_variables(d)
+                    if "tol" not in bv:
+                        continue
+                    n_tol += 1
+                    who = set()
+                    for v in bv - {"tol"}:
+                        o = owner.get(v.split("[")[0])
+                        if o is None:
+                            raise AnalysisError("unexpected symbol %s in a decision of Graph.equals" % v)
+                        who.add(o)
+                    if len(who) > 1:
+                        raise ObFail("Graph.equals(other, tol) decides a threshold that mixes the numbers of %s: whether a difference in one "
+                                     "of them counts as 'above the tolerance' then depends on the size of the others (the comparison is not "
+                                     "relative to the object that differs)" % " and ".join(sorted(who)))
+            if n_tol == 0:
+                raise ObFail("Graph[%s].equals(other, tol) never compares anything against the tolerance" % kind)
+        return dict(explored=n)
+    return lambda pkg: run_obligation(pkg, fn)
+
+
 def custom_size_cases():
     """Custom edges of one class whose array estimates / information matrices have different sizes: False, never an exception."""
     def fn(it):
@@ -453,9 +517,14 @@ def run(run_, pkg, tier):
     gfn = pkg.method("Graph", "equals")
     if run_.wants("C17/tolerance"):
         tasks.append(("C17/tolerance", "C17-Q5-tolerance-governs-every-comparison", tolerance_cases(), "%s:%d" % (gfn._gs_module, gfn.lineno)))
+    for kind in ("odo", "lm"):
+        for nv, ne in ((2, 1),) + (((3, 2),) if tier == "thorough" else ()):
+            key = "C17/locality/%s-%dv-%de" % (kind, nv, ne)
+            if run_.wants(key):
+                tasks.append((key, "C17-Q3-thresholds-relative-to-own-object", locality_cases(kind, nv, ne), "%s:%d" % (gfn._gs_module, gfn.lineno)))
     if run_.wants("C17/graph"):
         tasks.append(("C17/graph", "C17-Q4-graph", graph_cases(), "%s:%d" % (gfn._gs_module, gfn.lineno)))
     n_eq = sum(1 for q, f in pkg.all_functions() if f.name == "equals")
     run_.floor("equals methods", n_eq, 3)
     record(run_, tasks, run_tasks(pkg, tasks))
-    run_.floor("C17 obligations", len(tasks) if run_.only is None else 102, 102)
+    run_.floor("C17 obligations", len(tasks) if run_.only is None else 104, 104)
